@@ -27,7 +27,16 @@ ok = {}
 try:
     patch = os.path.abspath(os.path.join(seed, "patch.diff"))
     rc, out, _ = run(["git", "apply", patch], wt); ok["applies"] = rc == 0
-    if rc != 0: print(out); raise SystemExit("patch does not apply")
+    rebased = False
+    if rc != 0:
+        # the tree has moved on since the seed was written (later fix: commits): merge it in, keep the re-based diff
+        rc, out, _ = run(["git", "apply", "--3way", patch], wt); ok["applies"] = rc == 0
+        if rc != 0: print(out); raise SystemExit("patch does not apply (also not with --3way)")
+        run(["git", "reset", "-q"], wt)
+        rb = os.path.join(seed, "patch.rebased.diff")
+        r2 = subprocess.run(["git", "diff"], cwd=wt, capture_output=True, text=True)
+        open(rb, "w").write(r2.stdout)
+        patch = os.path.abspath(rb); rebased = True
     rc, out, _ = run(["go", "build", "./..."], wt); ok["builds"] = rc == 0
     import re
     flaky = set(x.split("::")[-1] for x in json.load(open("/root/.vp/BASELINE.json")).get("flaky", [])) | {"TestUpstream_SendDataPointWithAck_Close", "TestTransport_ReadWrite_Datagrams", "TestRetry_Do", "Test_FlushPolicy"}  # also flaky under heavy machine load (observed on the unmodified tree)
@@ -64,6 +73,7 @@ try:
         m = {"property": meta.get("property"), "summary": meta.get("summary"), "needs_to_manifest": meta.get("needs_to_manifest"),
              "demo_dir": demo_dir, "demo_cmd": cmd, "demo_files": [d.replace(".go", ".go.txt") for d in demos],
              "demo_note": "the demonstration file is stored with a .txt suffix; copy it into demo_dir as a _test.go file to run it",
+             "rebased_onto_current_head": rebased,
              "verified_by_me": ok, "what_i_ran": ["git worktree add <scratch> HEAD", "git apply patch.diff", "go build ./...", "go test -mod=mod -vet=off -count=1 ./... (full suite, passes)", cmd + " (fails with the change)", "git apply -R patch.diff", cmd + " (passes without the change)"],
              "failure_output_with_change": out1[-600:], "caught_by": caught}
         if missed: m["not_caught"] = missed
